@@ -165,6 +165,12 @@ func init() {
 				cfg.Directed = "keptSpan"
 			case 5:
 				cfg.Directed = "repeatDraw"
+			case 1:
+				cfg.Directed = "repeatDest"
+			case 4:
+				if i%12 == 4 {
+					cfg.Directed = "repeatDraw"
+				}
 			}
 		}, nil)
 	}
